@@ -292,6 +292,10 @@ impl Hist {
 
     pub fn clear(&mut self, node: usize, via_replace: bool) {
         self.step += 1;
+        // clearing through a `sum(0)` result would clear the operand's gradient only as long as the two alias each other
+        if self.st.p.base(node) != node {
+            return;
+        }
         if let Some(h) = &self.handles[node] {
             if via_replace {
                 let old = h.replace_gradient();
